@@ -953,3 +953,87 @@ V('c16-eq-swapped-prefix', 'C16', 'C16.R5', (ST, '''impl PartialOrd<str> for Sha
         Some(other.cmp(&**self))'''))
 V('c16-hash-len-only', 'C16', 'C16.R5', (BY, '''        self.as_ref().hash(hasher);''', '''        self.as_ref().len().hash(hasher);'''))
 V('c16-benign-acqrel', 'C16', 'silent', (BY, 'if self.inner().count.fetch_sub(1, Ordering::Release) == 1 {', 'if self.inner().count.fetch_sub(1, Ordering::AcqRel) == 1 {'))
+
+CE = 'src/utils/cell.rs'
+
+# ---- C17
+V('c17-drop-arms-swapped', 'C17', 'C17.R5', (CE, '''                Some(_) => ManuallyDrop::drop(&mut data.init),
+                None => ManuallyDrop::drop(&mut data.uninit),''', '''                Some(_) => ManuallyDrop::drop(&mut data.uninit),
+                None => ManuallyDrop::drop(&mut data.init),'''))
+V('c17-needs-drop-inverted', 'C17', 'C17.R4', (CE, '''        if std::mem::needs_drop::<U>() {
+            self.get_or_try_init_default(f)
+        } else {
+            self.get_or_try_init_no_drop(f)
+        }''', '''        if std::mem::needs_drop::<T>() {
+            self.get_or_try_init_default(f)
+        } else {
+            self.get_or_try_init_no_drop(f)
+        }'''))
+V('c17-state-written-before-check', 'C17', 'C17.R2', (CE, '''                let value = f(&mut state.uninit)?;
+
+                // The uninit value is forgotten here which is what the caller
+                // asked
+                *state = State {
+                    init: ManuallyDrop::new(value),
+                };
+
+                Ok(())''', '''                match f(&mut state.uninit) {
+                    Ok(value) => {
+                        *state = State {
+                            init: ManuallyDrop::new(value),
+                        };
+                        Ok(())
+                    }
+                    Err(err) => {
+                        // reset the seed
+                        *state = State {
+                            uninit: std::mem::zeroed(),
+                        };
+                        Err(err)
+                    }
+                }'''))
+V('c17-seed-dropped-in-closure', 'C17', 'C17.R3', (CE, '''                let uninit = std::mem::replace(state, new_state).uninit;
+                uninit_value = Some(ManuallyDrop::into_inner(uninit));
+                Ok(())''', '''                let uninit = std::mem::replace(state, new_state).uninit;
+                let seed = ManuallyDrop::into_inner(uninit);
+                if std::mem::size_of::<U>() > 0 {
+                    drop(seed);
+                } else {
+                    uninit_value = Some(seed);
+                }
+                Ok(())'''))
+V('c17-get-initialises', 'C17', 'C17.R6', (CE, '''        match self.once.get() {
+            Some(_) => unsafe { Some(self.get_unchecked()) },
+            None => None,
+        }''', '''        match self.once.wait() {
+            _ => unsafe { Some(self.get_unchecked()) },
+        }'''))
+V('c17-unchecked-without-once', 'C17', 'C17.R1', (CE, '''    pub fn get(&self) -> Option<&T> {''', '''    pub fn peek(&self) -> &T {
+        unsafe { self.get_unchecked() }
+    }
+
+    #[inline]
+    pub fn get(&self) -> Option<&T> {'''))
+V('c17-sync-without-u-send', 'C17', 'C17.R7', (CE, '''unsafe impl<U, T> Sync for OnceInitCell<U, T>
+where
+    T: Send + Sync,
+    U: Send,
+{
+}''', '''unsafe impl<U, T> Sync for OnceInitCell<U, T>
+where
+    T: Send + Sync,
+{
+}'''))
+V('c17-mutate-outside-once', 'C17', 'C17.R1', (CE, '''    #[inline]
+    unsafe fn get_unchecked(&self) -> &T {''', '''    /// Replaces the seed.
+    pub fn reseed(&self, value: U) {
+        if self.once.get().is_none() {
+            unsafe {
+                let state = &mut *self.data.get();
+                *state.uninit = value;
+            }
+        }
+    }
+
+    #[inline]
+    unsafe fn get_unchecked(&self) -> &T {'''))
